@@ -1467,7 +1467,7 @@ class CSSMatch(_DocumentNav):
                 if not self.match_tag(el, selector.tag):
                     continue
                 # Verify tag is defined
-                if selector.flags & ct.SEL_DEFINED and not self.match_defined(el):
+                if selector.flags & ct.SEL_DEFINED and not (self.is_html and self.match_defined(el)):
                     continue
                 # Verify element is root
                 if selector.flags & ct.SEL_ROOT and not self.match_root(el):
@@ -1512,7 +1512,7 @@ class CSSMatch(_DocumentNav):
                 if selector.flags & ct.SEL_INDETERMINATE and not self.match_indeterminate(el):
                     continue
                 # Validate element directionality
-                if selector.flags & DIR_FLAGS and not self.match_dir(el, selector.flags & DIR_FLAGS):
+                if selector.flags & DIR_FLAGS and not (self.is_html and self.match_dir(el, selector.flags & DIR_FLAGS)):
                     continue
                 # Validate that the tag contains the specified text.
                 if selector.contains and not self.match_contains(el, selector.contains):
